@@ -29,6 +29,7 @@ def pyint (args : List String) : String :=
 def handleBase (toks : List String) : Option String :=
   match toks with
   | "spec" :: rest => some (runSpec rest)
+  | "dec" :: rest => some (runDec rest)
   | "pyint" :: [b, h] => some (runNum ["pyint", b, h])      -- int(str, base) model (C15/C19)
   | "pyint" :: rest => some (pyint rest)
   | "obs" :: rest => some (runObs rest)
